@@ -12,6 +12,14 @@ NOTE = ("Trusted: Coq 8.16.1 kernel (full .vo build, vm_compute for finite sweep
         "regenerated from /repo on every run (defs.jq parse trees, native registry). Third-party crates are modelled by contract.")
 
 CLAIMED = {
+    "C15": ("Theorems (operator layer, Parse/PrecClimb.v mirrors prec_climb.rs and Term::climb): for chains of any length the tree reads "
+            "back as exactly the input sequence; precedence levels and associativities equal the manual's table; all 625 ordered pairs and "
+            "all 15625 ordered triples of operators (bindings included) group as the table implies (exhaustive, computed in the kernel). "
+            "Correspondence/oracle on the implementation: pairs, triples and random chains parse like their table-parenthesised texts and "
+            "like the Coq model; programs re-rendered with whitespace/comments (backslash continuation)/redundant parentheses parse "
+            "identically; 40 documented shorthands equal their expansions (implementation and model); 57 malformed programs are rejected. "
+            "Partial: the atom grammar is not proved.", "7.15",
+            "Coq proof (precedence climbing, exhaustive finite tables) + parser correspondence + expansion oracles"),
     "C20": ("Theorems: the day-count algorithms are inverse on all of Z (every day number maps to a date and back), produce well-formed "
             "dates, agree with an independently written calendar (leap rule, month lengths) on every valid date of a 400-year era and are "
             "400-year periodic; epochs outside the representable range are rejected, never wrapped. Correspondence: gmtime/mktime on integer "
